@@ -83,6 +83,8 @@ pub struct Families {
     pub comment_enum: bool,
     /// seeded generated programs are also evaluated with a statement-aligned range
     pub seeded_ranges: bool,
+    /// pinned: N hostile generated programs from a fixed seed (independent of VERIF_SEED)
+    pub pinned_gen: usize,
     /// pinned: degenerate programs (empty, whitespace, comment-only, shebang-only, one token …)
     pub tiny: bool,
     /// pinned: every corpus file rewritten with CRLF and with mixed line endings
@@ -131,6 +133,9 @@ impl Work {
         }
         if fam.crlf_corpus && !only_seeded {
             n += self.corpus.len();
+        }
+        if !only_seeded {
+            n += fam.pinned_gen;
         }
         let seeded = match tier {
             Tier::Quick => 600,
@@ -328,6 +333,37 @@ impl Work {
                 return;
             }
             i -= self.corpus.len();
+        }
+        if !only_seeded && fam.pinned_gen > 0 {
+            if i < fam.pinned_gen {
+                if quick && i % 3 != 0 {
+                    return;
+                }
+                let mut rng = Rng::derive(0x0c06_5eed, 0x91, i as u64);
+                let syntax = *rng.pick(&cfg::SYNTAXES);
+                let prog = gen::program(&mut rng, syntax);
+                let mut base = Cfg::random(&mut rng, syntax, 40);
+                base.sort_requires = false;
+                if fmt::parses(&prog, &base) {
+                    for w in [120usize, 80] {
+                        let mut c = base.clone();
+                        c.column_width = w;
+                        f(
+                            ctx,
+                            &Eval {
+                                id: format!("pingen:{i}:w{w}"),
+                                src: prog.clone(),
+                                cfg: c,
+                                range: None,
+                                pinned: true,
+                                presig: None,
+                            },
+                        );
+                    }
+                }
+                return;
+            }
+            i -= fam.pinned_gen;
         }
         let seeded = match ctx.tier {
             Tier::Quick => 600,
